@@ -877,8 +877,10 @@ def get_unique_seq(onsets, offsets, unique_onset_idxs=None, return_diff=False):
 
     first_time = np.min(onsets)
 
-    # ensure last score time is later than last onset
-    if np.max(onsets) == np.max(offsets):
+    # ensure last score time is later than last onset (compared with the
+    # tolerance of get_unique_onset_idxs: score times are single precision,
+    # e.g., a note at 0.5 lasting 1/3 does not end exactly at 5/6)
+    if np.max(offsets) - np.max(onsets) <= 1e-6:
         # last note without duration (grace note)
         last_time = np.max(onsets) + 1
     else:
